@@ -48,6 +48,10 @@ WMean(s) == RDiv(SumWV(s), SumW(s))
 TwoPassM2(s) == LET m == WMean(s)
                 IN  RSumSeq([i \in 1..Len(s) |-> RMul(s[i].w, RMul(RSub(s[i].v, m), RSub(s[i].v, m)))])
 TwoPassVar(s) == RDiv(TwoPassM2(s), SumW(s))
+\* the same number as E[v^2] - E[v]^2 (small denominators; used by the trace specification, whose inputs
+\* are larger; the design-level configs check DirectVar = TwoPassVar as a lemma)
+SumWV2(s) == RSumSeq([i \in 1..Len(s) |-> RMul(s[i].w, RMul(s[i].v, s[i].v))])
+DirectVar(s) == RSub(RDiv(SumWV2(s), SumW(s)), RMul(WMean(s), WMean(s)))
 SubSamples(s, idx) == [k \in 1..Len(idx) |-> s[idx[k]]]    \* idx: sequence of sample indices
 
 (***************************************************************************)
